@@ -31,7 +31,9 @@ from __future__ import annotations
 import math
 from fractions import Fraction
 
-from opsim.core import HarnessError
+from opsim import seams
+from opsim.core import HarnessError, derive
+from opsim.sched import Sched, SimLock
 from opsim.util import call, weighted, quiet
 
 from operon_ai.topology.quorum import QuorumSensing, EmergencyQuorum, VotingStrategy, VoteType
@@ -40,7 +42,7 @@ from operon_ai.core.types import ActionProtein
 
 ID = "C06"
 LEVEL = "fault_enumeration"
-ENGINE = "seq"
+ENGINE = "seq+threads"
 BEHAVIOURS = ["PERMIT", "EXECUTE", "BLOCK", "DEFER", "UNKNOWN", "FAILURE", "raise", "starved"]
 WEIGHTS = [0, 0.5, 1, 3]
 CONFS = [None, 0, 0.2, 0.3, 1]
@@ -77,7 +79,9 @@ RULE = ("run i < table size is the i-th row of the complete table {8 voter behav
         "samples: n = 5..7 electorates, multi-round histories with update_all_reliability between rounds, electorate "
         "histories (add_agent / remove_agent / set_agent_weight / set_strategy between construction and the votes, colony "
         "kept within 1..7; n, weights and the criterion are re-derived from the colony at vote time), real BioAgents "
-        "starved by the shared budget, garbled confidences; each PERMIT outcome is re-run with every single "
+        "starved by the shared budget, garbled confidences, and a threads family (2-3 tasks x 1-2 run_vote calls on ONE quorum "
+        "object under the seeded line-granularity scheduler, voters answer per proposal); voters are also enrolled with "
+        "add_agent(name, weight) over the whole weight grid incl. 0 and with duplicate / empty names; each PERMIT outcome is re-run with every single "
         "block->permit / weight-up / confidence-up variant (max 12); non-trivial = a ballot with at least two different "
         "vote types or at least one faulted voter (raised, starved, garbled); distinct = distinct plan")
 COMPONENTS = {"real": ["operon_ai.topology.quorum.QuorumSensing", "operon_ai.topology.quorum.EmergencyQuorum",
@@ -96,7 +100,14 @@ ASSUMPTIONS = [
     "taken; for BAYESIAN it "
     "demands only that a ballot whose block votes dominate its permit votes pairwise in weight*confidence (and strictly "
     "in total) is not reached at thresholds >= 0.5",
-    "ties are judged only when the arithmetic on the recorded ballot is exact in binary floating point",
+    "ties are judged only when the arithmetic on the ballot is exact in binary floating point",
+    "the weights of the criterion are the weights the caller gave (constructor default 1, add_agent(name, w), "
+    "set_agent_weight on an unambiguous name), multiplied by the reliability the quorum reports; only where a "
+    "name-addressed setter hit a duplicated name is the weight read back from get_statistics()",
+    "threads family: S1/S2/S3/S5/S6 are judged per call on that call's own ballot (the voters answer per proposal "
+    "text); sound because unchanged quorum.py keeps all tallying state in locals (statistics counters and the vote "
+    "history are shared but not judged); no reliability feedback and no colony change while votes overlap; S4 is not "
+    "run there",
     "zero-confidence of a failed voter's abstention is not asserted (only that it is an abstention)",
     "a starved fake voter asks the real store for more than it holds; the realistic 'budget ran out before its turn' "
     "order is exercised with real BioAgents in the starvation family",
@@ -106,7 +117,9 @@ EXPECT_PROBES = ("emergency_run", "bayesian_run", "tie_at_threshold", "s2_applie
                  "raising_voter", "starved_voter", "real_agent_starved", "reliability_zero", "history_round",
                  "min_voters_gate_closed", "threshold_one", "garbled_confidence", "permit_outcome", "table_row",
                  "sampled_large_electorate", "min_voters_zero", "empty_active_ballot", "colony_grew", "colony_shrank",
-                 "strategy_changed_before_vote", "weight_changed_before_vote", "vote_after_electorate_change")
+                 "strategy_changed_before_vote", "weight_changed_before_vote", "vote_after_electorate_change",
+                 "duplicate_agent_name", "empty_agent_name", "enrolled_with_zero_weight", "twins_vote_differently",
+                 "threads_run", "overlapping_votes", "preempted_inside_run_vote")
 
 VT = {"permit": VoteType.PERMIT, "block": VoteType.BLOCK, "abstain": VoteType.ABSTAIN, "defer": VoteType.DEFER}
 CLS = {"PERMIT": "permit", "EXECUTE": "permit", "BLOCK": "block", "DEFER": "defer"}
@@ -165,7 +178,9 @@ def gen(rng, tier, i):
         cfg.update({"n": n, "family": "table", "weights": _weights(rng, n), "via_set": False})
         return {"config": cfg, "ops": [["vote", [[b, c] for b, c in zip(beh, confs)]]]}
 
-    fam = weighted(rng, [(4, "large"), (3, "history"), (4, "electorate"), (1.3, "real"), (1, "garbled")])
+    fam = weighted(rng, [(4, "large"), (3, "history"), (4.5, "electorate"), (1.3, "real"), (1, "garbled"), (1.6, "threads")])
+    if fam == "threads":
+        return _gen_threads(rng, tier)
     if fam == "large":
         n = rng.randint(5, 7)
     elif fam == "history":
@@ -227,7 +242,10 @@ def gen(rng, tier, i):
             o = weighted(rng, [(4 if trend != "shrink" else 0.7, "add"), (4 if trend != "grow" else 0.7, "remove"),
                                (1.2, "weight"), (1.0, "strategy")])
             if o == "add" and cur["n"] < 7:
-                out.append(["add_agent", rng.choice([1, 1, 1] + WEIGHTS)])
+                nk = weighted(rng, [(5, None), (3, "dup"), (0.7, "empty")])
+                if nk == "dup":
+                    nk = ["dup", rng.randrange(cur["n"])]
+                out.append(["add_agent", rng.choice([1, 1, 0, 0] + WEIGHTS), nk])
                 cur["n"] += 1
             elif o == "remove" and cur["n"] > 1:
                 out.append(["remove_agent", rng.randrange(cur["n"])])
@@ -268,9 +286,59 @@ def gen(rng, tier, i):
     return {"config": cfg, "ops": [["vote", ballot()]]}
 
 
+SCHEDS = [(1, {"kind": "serial"}), (3, {"kind": "uniform"}), (2, {"kind": "sticky", "p": 0.7}),
+          (2, {"kind": "sticky", "p": 0.9}), (1, {"kind": "sticky", "p": 0.97}), (2, {"kind": "pct", "d": 1, "est": 120}),
+          (2, {"kind": "pct", "d": 2, "est": 160}), (2, {"kind": "pct", "d": 3, "est": 200})]
+
+
+def _gen_threads(rng, tier):
+    n = rng.randint(2, 6)
+    cfg = dict(rng.choice(_CFG[n]))
+    if rng.random() < 0.4:
+        cfg.update({"strategy": rng.choice(["majority", "supermajority", "unanimous", "threshold"]), "threshold": None,
+                    "emergency": False})
+    cfg.update({"n": n, "family": "threads", "weights": _weights(rng, n), "via_set": False,
+                "sched": dict(weighted(rng, SCHEDS))})
+
+    def ballot():
+        shape = weighted(rng, [(3, "wide_few_permits"), (3, "narrow"), (2, "any"), (1, "all_permit"), (1, "votes")])
+        confs = _confs(rng, n)
+        if shape == "wide_few_permits":
+            beh = ["BLOCK"] * n
+            for j in rng.sample(range(n), rng.choice([1, 1, 2]) if n > 1 else 1):
+                beh[j] = "PERMIT"
+        elif shape == "narrow":        # small active turnout: most voters do not take part
+            beh = [rng.choice(["DEFER", "UNKNOWN", "raise", "starved", "FAILURE"]) for _ in range(n)]
+            if rng.random() < 0.7:
+                beh[rng.randrange(n)] = rng.choice(["PERMIT", "PERMIT", "BLOCK"])
+        elif shape == "all_permit":
+            beh = ["PERMIT"] * n
+        elif shape == "votes":
+            beh = [rng.choice(["PERMIT", "BLOCK"]) for _ in range(n)]
+        else:
+            beh = [rng.choice(BEHAVIOURS) for _ in range(n)]
+        return [[b, c] for b, c in zip(beh, confs)]
+
+    tasks = [[["vote", ballot()] for _ in range(rng.choice([1, 1, 2]))] for _ in range(rng.choice([2, 2, 3]))]
+    return {"config": cfg, "tasks": tasks}
+
+
 def simplify(plan):
     cfg = plan["config"]
     n = cfg["n"]
+    if cfg.get("family") == "threads":
+        for ti, ops in enumerate(plan["tasks"]):
+            for oi, op in enumerate(ops):
+                for j, (b, c) in enumerate(op[1]):
+                    if c is not None:
+                        tasks = [[[o[0], [list(x) for x in o[1]]] for o in t] for t in plan["tasks"]]
+                        tasks[ti][oi][1][j][1] = None
+                        yield {**plan, "tasks": tasks}
+        if any(w != 1 for w in cfg["weights"]):
+            yield {**plan, "config": dict(cfg, weights=[1] * n)}
+        if cfg["min_voters"] > 1:
+            yield {**plan, "config": dict(cfg, min_voters=1)}
+        return
     # drop one voter everywhere (only when the colony never changes after construction)
     fixed = not any(op[0] in ("add_agent", "remove_agent", "set_weight") for op in plan["ops"])
     if n > 1 and fixed:
@@ -289,7 +357,11 @@ def simplify(plan):
     for oi, op in enumerate(plan["ops"]):
         if op[0] == "add_agent" and op[1] != 1:
             ops = [list(o) for o in plan["ops"]]
-            ops[oi] = ["add_agent", 1]
+            ops[oi] = ["add_agent", 1] + list(op[2:])
+            yield {**plan, "ops": ops}
+        if op[0] == "add_agent" and len(op) > 2 and op[2] is not None:
+            ops = [list(o) for o in plan["ops"]]
+            ops[oi] = ["add_agent", op[1], None]
             yield {**plan, "ops": ops}
     if cfg.get("via_set"):
         yield {**plan, "config": dict(cfg, via_set=False)}
@@ -418,9 +490,11 @@ def any_permit(res):
     return bool(res.reached) or res.decision == VoteType.PERMIT
 
 
-def _exact(xs):
-    """Fractions of recorded floats and whether float arithmetic on them is exact."""
-    return [Fraction(x) for x in xs]
+class _V:
+    __slots__ = ("weight", "confidence")
+
+    def __init__(self, weight, confidence):
+        self.weight, self.confidence = weight, confidence
 
 
 def judge(k, cfg, cast, res, site, min_voters):
@@ -495,6 +569,9 @@ def judge(k, cfg, cast, res, site, min_voters):
         if len(P) + len(B) < min_voters:
             k.violation("S6", "reached_below_min_voters", site, f"{len(P)}+{len(B)} active votes < min_voters {min_voters}")
         bad = None
+        # weight-based criteria are evaluated on the ballots cast with the weights the caller gave
+        PC = [_V(v["w"] * v["r"], 1.0 if v["c"] is None else float(v["c"])) for v in permits]
+        BC = [_V(v["w"] * v["r"], 1.0 if v["c"] is None else float(v["c"])) for v in blocks]
         if strategy in ("majority", "supermajority"):
             thr = t if t else (0.5 if strategy == "majority" else 0.666)
             if len(P) + len(B) == 0:
@@ -510,10 +587,10 @@ def judge(k, cfg, cast, res, site, min_voters):
         elif strategy in ("weighted", "confidence"):
             thr = t if t else 0.5
             if strategy == "confidence":
-                P2 = [v for v in P if v.confidence >= 0.3]
-                B2 = [v for v in B if v.confidence >= 0.3]
+                P2 = [v for v in PC if v.confidence >= 0.3]
+                B2 = [v for v in BC if v.confidence >= 0.3]
             else:
-                P2, B2 = P, B
+                P2, B2 = PC, BC
             fp = sum(Fraction(v.weight) * Fraction(v.confidence) for v in P2)
             fb = sum(Fraction(v.weight) * Fraction(v.confidence) for v in B2)
             exact = all(Fraction(v.weight * v.confidence) == Fraction(v.weight) * Fraction(v.confidence) for v in P2 + B2)
@@ -537,9 +614,9 @@ def judge(k, cfg, cast, res, site, min_voters):
                 bad = f"{len(P)} permits < {max(1, need)} (colony of {n})"
         elif strategy == "bayesian":
             thr = t if t else 0.5
-            if thr >= 0.5 and len(B) >= len(P) and P:
-                ps = sorted((Fraction(v.weight) * Fraction(v.confidence) for v in P), reverse=True)
-                bs = sorted((Fraction(v.weight) * Fraction(v.confidence) for v in B), reverse=True)
+            if thr >= 0.5 and len(BC) >= len(PC) and PC:
+                ps = sorted((Fraction(v.weight) * Fraction(v.confidence) for v in PC), reverse=True)
+                bs = sorted((Fraction(v.weight) * Fraction(v.confidence) for v in BC), reverse=True)
                 if all(b >= p for p, b in zip(ps, bs)) and sum(bs) > sum(ps) + Fraction(1, 10 ** 9):
                     bad = (f"block votes dominate permit votes pairwise (weight*confidence permits {[float(x) for x in ps]} "
                            f"blocks {[float(x) for x in bs]}) yet posterior {res.weighted_score!r} > {thr}")
@@ -592,7 +669,34 @@ def _cast_of(voters, obs):
     return cast
 
 
+class Given:
+    """The weight the caller gave each colony member, keyed by the member's AgentProfile object (names may repeat).
+    None = a name-addressed setter hit a duplicated name, so which member it changed is not the caller's knowledge."""
+
+    def __init__(self, q, weights):
+        self.by = {}
+        self.keep = []
+        for i, p in enumerate(q.colony):
+            self.put(p, float(weights[i]) if i < len(weights) else 1.0)
+
+    def put(self, profile, w):
+        self.by[id(profile)] = w
+        self.keep.append(profile)
+
+    def names(self, q, name):
+        return [p for p in q.colony if p.agent.name == name]
+
+    def weights(self, q, obs):
+        out = []
+        for p, (w_obs, _) in zip(q.colony, obs):
+            w = self.by.get(id(p))
+            out.append(w_obs if w is None else w)
+        return out
+
+
 def run(plan, k):
+    if plan["config"].get("family") == "threads":
+        return _run_threads(plan, k)
     cfg = plan["config"]
     n0 = cfg["n"]
     weights = list(cfg["weights"])
@@ -614,6 +718,7 @@ def run(plan, k):
     if not out.ok:
         raise HarnessError(f"construction failed: {out.exc!r}")
     q, store = out.value
+    given = Given(q, weights)
     nontrivial = False
     voted = 0
     changed = False       # the electorate or the strategy changed since construction
@@ -637,10 +742,27 @@ def run(plan, k):
             if len(q.colony) >= 7:
                 continue
             added += 1
-            out = call(q.add_agent, f"Added_{added}", op[1])
+            nk = op[2] if len(op) > 2 else None
+            if nk == "empty":
+                name = ""
+                k.probe("empty_agent_name")
+            elif isinstance(nk, list):
+                name = q.colony[nk[1] % len(q.colony)].agent.name
+            else:
+                name = f"Added_{added}"
+            if any(p.agent.name == name for p in q.colony):
+                k.probe("duplicate_agent_name")
+            if op[1] == 0:
+                k.probe("enrolled_with_zero_weight")
+            before = list(q.colony)
+            out = call(q.add_agent, name, op[1])
             if out.kind != "ok":
                 raise HarnessError(f"add_agent failed: {out.exc!r}")
-            k.ev("add_agent", [op[1], len(q.colony)])
+            new = [p for p in q.colony if not any(p is b for b in before)]
+            if len(new) != 1:
+                raise HarnessError("add_agent did not enrol exactly one member")
+            given.put(new[0], float(op[1]))
+            k.ev("add_agent", [op[1], name, len(q.colony)])
             k.probe("colony_grew")
             changed = True
             continue
@@ -657,9 +779,12 @@ def run(plan, k):
             continue
         if op[0] == "set_weight":
             name = q.colony[op[1] % len(q.colony)].agent.name
+            same = given.names(q, name)
             out = call(q.set_agent_weight, name, op[2])
             if out.kind != "ok" or out.value is not True:
                 raise HarnessError(f"set_agent_weight failed: {out.brief()}")
+            for pr in same:
+                given.by[id(pr)] = float(op[2]) if len(same) == 1 else None
             k.ev("set_weight", [op[1] % len(q.colony), op[2]])
             k.probe("weight_changed_before_vote")
             changed = True
@@ -717,7 +842,13 @@ def run(plan, k):
             if v.cast is None:
                 k.violation("S5", "voter_not_polled", site, f"voter {j}")
                 v.cast = "failed"
-        cast = _cast_of(voters, obs)
+        gw = given.weights(q, obs)
+        cast = _cast_of(voters, [(w, r) for w, (_, r) in zip(gw, obs)])
+        names = [p.agent.name for p in q.colony]
+        for a in range(n):
+            for b2 in range(a + 1, n):
+                if names[a] == names[b2] and cast[a]["cls"] != cast[b2]["cls"]:
+                    k.probe("twins_vote_differently")
         k.ev("vote", [[v["cls"] for v in cast], [round(v["w"] * v["r"], 9) for v in cast], [v["c"] for v in cast],
                       bool(res.reached), res.decision.name, res.permit_votes, res.block_votes, res.abstain_votes,
                       res.total_votes, round(float(res.weighted_score), 9)])
@@ -731,7 +862,7 @@ def run(plan, k):
         # ---- S4: metamorphic re-runs on fresh instances built directly for the colony as it is now
         if ballot is not None and is_permit(res):
             rel = [r for _, r in obs]
-            base_w = [w for w, _ in obs]
+            base_w = list(gw)
             variants = []
             for j, (b, c) in enumerate(ballot):
                 if isinstance(c, str):
@@ -787,6 +918,131 @@ def run(plan, k):
                                 f"after {kind} of voter {j} -> [{b2},{c2}] weight {ws2[j]}: reached={r2.value.reached} "
                                 f"decision={r2.value.decision.name} (score {r2.value.weighted_score!r})")
     k.nontrivial = nontrivial
+
+
+class PromptVoter:
+    """A voter shared by overlapping run_vote calls: it answers according to the proposal text."""
+    role = "Voter"
+
+    def __init__(self, k, name, j, ballots, store, big):
+        self.k, self.name, self.j, self.ballots, self.store, self.big = k, name, j, ballots, store, big
+        self.cast = {}            # prompt -> permit / block / defer / failed
+        self.broken = None
+
+    def express(self, signal):
+        prompt = signal.content
+        beh, conf = self.ballots[prompt][self.j]
+        if beh == "raise":
+            self.cast[prompt] = "failed"
+            self.k.fault("collab_raise")
+            raise RuntimeError("voter crashed")
+        if beh == "starved":
+            if self.store.consume(cost=self.big):
+                self.broken = "a starved voter could pay"
+                raise HarnessError(self.broken)
+            self.cast[prompt] = "failed"
+            self.k.fault("budget_starve")
+            return ActionProtein("FAILURE", "Apoptosis: Insufficient ATP", 0.0)
+        if not self.store.consume(cost=COST):
+            self.broken = "shared budget miscalculated: a paying voter was starved"
+            raise HarnessError(self.broken)
+        self.cast[prompt] = CLS.get(beh, "failed")
+        payload = {"confidence": conf, "note": "sim"} if conf is not None else "sim"
+        return ActionProtein(beh, payload, 1.0)
+
+
+def _run_threads(plan, k):
+    """Two or three tasks call run_vote on ONE quorum object; every call is judged on its own ballot."""
+    cfg = plan["config"]
+    n = cfg["n"]
+    weights = list(cfg["weights"])
+    cur = {"strategy": cfg["strategy"], "threshold": cfg["threshold"], "emergency": cfg["emergency"],
+           "min_voters": 1 if cfg["emergency"] else cfg["min_voters"]}
+    site = site_of(cur)
+    scope = [seams.src("operon_ai/topology/quorum.py")]
+    sched = Sched(k, cfg.get("sched"), switches=plan.get("switches"),
+                  rng=derive(plan.get("_seedpath", "replay"), "sched"), scope=scope, max_steps=200_000)
+    calls = sum(len(t) for t in plan["tasks"])
+    budget = _budget(max(1, calls) * 8)
+    out = call(build, cfg, weights, budget)
+    if not out.ok:
+        raise HarnessError(f"construction failed: {out.exc!r}")
+    q, store = out.value
+    k.probe("threads_run")
+    if cfg["emergency"]:
+        k.probe("emergency_run")
+    ballots = {}
+    for ti, ops in enumerate(plan["tasks"]):
+        for oi, op in enumerate(ops):
+            ballots[f"proposal {ti}.{oi}"] = [_beh(op[1], j) for j in range(n)]
+    obs = _observed(q)
+    voters = [PromptVoter(k, q.colony[j].agent.name, j, ballots, store, budget + COST * 8 + 10) for j in range(n)]
+    for p, v in zip(q.colony, voters):
+        p.agent = v
+    results = []
+
+    def body(ti, ops):
+        def f():
+            me = sched.cur
+            for oi, op in enumerate(ops):
+                prompt = f"proposal {ti}.{oi}"
+                inv = k.ev("inv", [ti, oi])
+                me.op = "run_vote"
+                o = call(q.run_vote, prompt)
+                me.op = None
+                ret = k.ev("ret", [ti, oi, o.kind])
+                results.append((ti, oi, prompt, o, inv, ret))
+        return f
+
+    for ti, ops in enumerate(plan["tasks"]):
+        sched.spawn(body(ti, ops), name=f"t{ti}")
+    sched.run()
+    plan["switches"] = sched.switches
+    k.steps += sched.steps
+    k.key = ["threads", {x: cfg[x] for x in cfg if x != "sched"}, plan["tasks"]]
+    k.nontrivial = sched.preempt_in_op > 0
+    if sched.preempt_in_op:
+        k.probe("preempted_inside_run_vote", sched.preempt_in_op)
+    for v in voters:
+        if v.broken:
+            raise HarnessError(v.broken)
+    for tk in sched.tasks:
+        if tk.exc is not None:
+            if isinstance(tk.exc, HarnessError):
+                raise tk.exc
+            raise HarnessError(f"task {tk.name} died: {tk.exc!r}")
+    vd = sched.verdict
+    if vd and vd[0] == "deadlock":
+        k.violation("S5", "run_vote_deadlock", site, " | ".join(vd[1]))
+        return
+    if vd and vd[0] == "step_budget":
+        k.violation("S5", "run_vote_no_return_within_step_budget", site)
+        return
+    for a in results:
+        for b in results:
+            if a[0] != b[0] and a[4] < b[5] and b[4] < a[5]:
+                k.probe("overlapping_votes")
+                break
+    for ti, oi, prompt, o, inv, ret in sorted(results, key=lambda r: (r[0], r[1])):
+        if o.kind != "ok":
+            k.violation("S5", f"run_vote_raised:{type(o.exc).__name__}" if o.kind == "raised" else o.kind, site,
+                        repr(o.exc)[:200])
+            continue
+        res = o.value
+        cast = []
+        for j, v in enumerate(voters):
+            cls = v.cast.get(prompt)
+            if cls is None:
+                k.violation("S5", "voter_not_polled", site, f"voter {j} for {prompt}")
+                cls = "failed"
+            beh, c = ballots[prompt][j]
+            cast.append({"cls": cls, "w": float(weights[j]) if j < len(weights) else 1.0, "r": obs[j][1],
+                         "c": c, "fault": beh in ("raise", "starved")})
+        k.ev("vote", [ti, oi, [v["cls"] for v in cast], bool(res.reached), res.decision.name, res.permit_votes,
+                      res.block_votes, res.abstain_votes, res.total_votes, round(float(res.weighted_score), 9)])
+        if cur["strategy"] == "bayesian":
+            k.probe("bayesian_run")
+        judge(k, cur, cast, res, site, cur["min_voters"])
 
 
 def _beh(ballot, j):
